@@ -151,6 +151,10 @@ func parseDocument(parser *Parser) (*ast.Document, error) {
 		}
 		nodes = append(nodes, node)
 	}
+	if len(nodes) == 0 {
+		// Document : Definition+
+		return nil, unexpected(parser, lexer.Token{})
+	}
 	return ast.NewDocument(&ast.Document{
 		Loc:         loc(parser, start),
 		Definitions: nodes,
